@@ -22,11 +22,11 @@ import (
 // ---------------------------------------------------------------------------------------------
 
 type charFacts struct {
-	eof   int   // 0 unknown, 1 yes, 2 no
-	eq    *rune // known equal to this constant
-	digit int   // 0 unknown, 1 yes, 2 no
-	eol   int   // 0 unknown, 1 yes, 2 no
-	ascii bool
+	eof    int   // 0 unknown, 1 yes, 2 no
+	eq     *rune // known equal to this constant
+	digit  int   // 0 unknown, 1 yes, 2 no
+	eol    int   // 0 unknown, 1 yes, 2 no
+	ascii  bool
 	neq    []rune
 	sameAs []int
 	neqCh  []int
